@@ -335,7 +335,15 @@ def r3_notification_arms(ctx):
         R.check(ok, "C18.R3", "process_notification:failed-delivery-removes-handler", "a closed or lagging notification handler is removed on every failure path", "a failed delivery to a notification handler can leave the handler registered (it is then retried forever and never freed)", where(c))
 
 
-RULES = [r1_effect_summaries, r2_ledger, r3_notification_arms]
+def r4_lost_drop_is_recovered(ctx):
+    """a dropped subscription whose best-effort drop message was lost is collected when its next notification arrives:
+    both failed-delivery arms of process_subscription_response ask for closure (= C05.R3)"""
+    from . import c05
+
+    c05.r3_lag_and_close(ctx)
+
+
+RULES = [r1_effect_summaries, r2_ledger, r3_notification_arms, r4_lost_drop_is_recovered]
 
 LEVEL_TEXT = (
     "A ledger over the client's four private tables decided from the type-checked program: per-method effect summaries "
